@@ -1,0 +1,161 @@
+// Verification hooks (deterministic simulation); compiled only with `--cfg maidsafe_safe_network_verif`.
+//
+// An in-process stand-in for the payment vault contract at the JSON-RPC boundary: when a ledger is
+// installed on the current thread, `verify_data_payment` asks it instead of the HTTP provider. The
+// request parks until the simulator replies, so the simulator also decides *when* the chain answers.
+// With no ledger installed the real handler is used.
+
+use crate::common::{Address, Amount, QuoteHash};
+use crate::contract::payment_vault::error::Error;
+use crate::contract::payment_vault::handler::PaymentVaultHandler;
+use crate::contract::payment_vault::interface::IPaymentVault;
+use alloy::network::Network;
+use alloy::providers::Provider;
+use alloy::transports::Transport;
+use std::cell::RefCell;
+use std::future::Future;
+use std::pin::Pin;
+use std::sync::{Arc, Mutex};
+use std::task::{Context, Poll, Waker};
+
+/// What the simulated chain answers to one `verifyPayment` call.
+#[derive(Debug, Clone)]
+pub enum LedgerReply {
+    /// (quote hash, amount paid, is valid) — the contract returns exactly three results
+    Results([(QuoteHash, Amount, bool); 3]),
+    /// the RPC endpoint failed
+    RpcError,
+}
+
+/// One parked `verifyPayment` call.
+#[derive(Debug, Clone)]
+pub struct LedgerRequest {
+    pub id: u64,
+    pub payments: Vec<(QuoteHash, Address)>,
+}
+
+#[derive(Default)]
+struct Slot {
+    reply: Option<LedgerReply>,
+    waker: Option<Waker>,
+}
+
+struct Ledger {
+    next_id: u64,
+    pending: Vec<(LedgerRequest, Arc<Mutex<Slot>>)>,
+}
+
+thread_local! {
+    static LEDGER: RefCell<Option<Ledger>> = const { RefCell::new(None) };
+}
+
+pub fn ledger_install() {
+    LEDGER.with(|l| {
+        *l.borrow_mut() = Some(Ledger {
+            next_id: 0,
+            pending: Vec::new(),
+        })
+    });
+}
+
+pub fn ledger_uninstall() {
+    LEDGER.with(|l| *l.borrow_mut() = None);
+}
+
+pub fn ledger_pending() -> Vec<LedgerRequest> {
+    LEDGER.with(|l| {
+        l.borrow()
+            .as_ref()
+            .map(|l| l.pending.iter().map(|(r, _)| r.clone()).collect())
+            .unwrap_or_default()
+    })
+}
+
+pub fn ledger_reply(id: u64, reply: LedgerReply) -> bool {
+    let slot = LEDGER.with(|l| {
+        let mut l = l.borrow_mut();
+        let l = l.as_mut()?;
+        let pos = l.pending.iter().position(|(r, _)| r.id == id)?;
+        Some(l.pending.remove(pos).1)
+    });
+    let Some(slot) = slot else { return false };
+    let waker = {
+        let mut s = slot.lock().expect("ledger slot");
+        s.reply = Some(reply);
+        s.waker.take()
+    };
+    if let Some(w) = waker {
+        w.wake();
+    }
+    true
+}
+
+struct Wait(Arc<Mutex<Slot>>);
+
+impl Future for Wait {
+    type Output = LedgerReply;
+    fn poll(self: Pin<&mut Self>, cx: &mut Context<'_>) -> Poll<LedgerReply> {
+        let mut s = self.0.lock().expect("ledger slot");
+        if let Some(r) = s.reply.take() {
+            Poll::Ready(r)
+        } else {
+            s.waker = Some(cx.waker().clone());
+            Poll::Pending
+        }
+    }
+}
+
+/// Shadows the `PaymentVaultHandler` inside `verify_data_payment`.
+pub(crate) struct VaultShim<T: Transport + Clone, P: Provider<T, N>, N: Network> {
+    inner: PaymentVaultHandler<T, P, N>,
+}
+
+impl<T, P, N> VaultShim<T, P, N>
+where
+    T: Transport + Clone,
+    P: Provider<T, N>,
+    N: Network,
+{
+    pub(crate) fn new(inner: PaymentVaultHandler<T, P, N>) -> Self {
+        Self { inner }
+    }
+
+    pub(crate) async fn verify_payment(
+        &self,
+        payment_verifications: Vec<IPaymentVault::PaymentVerification>,
+    ) -> Result<[IPaymentVault::PaymentVerificationResult; 3], Error> {
+        let slot = LEDGER.with(|l| {
+            let mut l = l.borrow_mut();
+            let l = l.as_mut()?;
+            let id = l.next_id;
+            l.next_id += 1;
+            let slot = Arc::new(Mutex::new(Slot::default()));
+            l.pending.push((
+                LedgerRequest {
+                    id,
+                    payments: payment_verifications
+                        .iter()
+                        .map(|p| (p.quoteHash, p.rewardsAddress))
+                        .collect(),
+                },
+                slot.clone(),
+            ));
+            Some(slot)
+        });
+        let Some(slot) = slot else {
+            return self.inner.verify_payment(payment_verifications).await;
+        };
+        match Wait(slot).await {
+            LedgerReply::Results(r) => Ok(r.map(|(quote_hash, amount, is_valid)| {
+                IPaymentVault::PaymentVerificationResult {
+                    quoteHash: quote_hash,
+                    amountPaid: amount,
+                    isValid: is_valid,
+                }
+            })),
+            LedgerReply::RpcError => Err(Error::RpcError(
+                alloy::transports::TransportErrorKind::custom_str("verif: simulated rpc failure"),
+            )),
+        }
+    }
+}
